@@ -211,6 +211,11 @@ func cmdC09(args []string) {
 					viol := func(key, what string) {
 						out.Emit(core.V("C09", key+":"+c.Info.Name, fmt.Sprintf("%s at %s:%d:%d: %s [replace %q by %q]", what, path, d.Line, d.Col, d.Text, clip(rw.Old), clip(rw.New)), base))
 					}
+					// (0) a fix must not rewrite a compiler directive comment into something else
+					if directiveRE.MatchString(rw.Old) && rw.New != rw.Old {
+						viol("fix-rewrites-directive", "the fix rewrites the compiler directive "+rw.Old)
+						continue
+					}
 					// (a) the replacement parses as the category of what it replaces
 					if err := rewrite.ParsesAs(rw.Kind, rw.New); err != nil {
 						viol("does-not-parse-as-"+rw.Kind, "suggested code does not parse as "+rw.Kind+": "+err.Error())
@@ -256,6 +261,10 @@ func cmdC09(args []string) {
 					if len(cp.errs) > 0 {
 						base["type_errors"] = cp.errs
 						cls := errClass(cp.errs[0])
+						if m := shadowedPkgRE.FindStringSubmatch(cp.errs[0]); m != nil && stdByName[m[1]] != "" && strings.Contains(rw.New, m[1]+".") {
+							// the replacement names a standard package while a local identifier of that name is in scope
+							cls = "package-name-shadowed"
+						}
 						if cls == "syntax" && strings.Contains(rw.New, "{") && inStmtHeader(f, p.Fset.File(f.Package), rw.From) {
 							// narrow input class: a replacement containing a composite literal, proposed in an if/for/switch header
 							cls = "composite-literal-in-statement-header"
@@ -264,8 +273,9 @@ func cmdC09(args []string) {
 						rmScratch(sdir)
 						continue
 					}
-					// (b) the replaced expression keeps its type
-					if rw.Kind == "expr" {
+					// (b) the replaced expression keeps its type (immaterial where the value is discarded:
+					// the whole expression statement is replaced)
+					if rw.Kind == "expr" && !isExprStmtAt(f, p.Fset.File(f.Package), rw.From, rw.To) {
 						var oldT, newT types.Type
 						tf := p.Fset.File(f.Package)
 						ast.Inspect(f, func(n ast.Node) bool {
@@ -469,6 +479,22 @@ func inStmtHeader(f *ast.File, tf *token.File, off int) bool {
 	return found
 }
 
+var directiveRE = regexp.MustCompile(`^//(line .*:\d+|go:[a-z_]+( .*)?|export \w+.*|extern \w+.*)$`)
+
+var shadowedPkgRE = regexp.MustCompile(`: (\w+)\.\w+ undefined \(type .* has no field or method`)
+
+// isExprStmtAt reports whether [from,to) is exactly the expression of an expression statement.
+func isExprStmtAt(f *ast.File, tf *token.File, from, to int) bool {
+	found := false
+	ast.Inspect(f, func(n ast.Node) bool {
+		if es, ok := n.(*ast.ExprStmt); ok && tf.Offset(es.X.Pos()) == from && tf.Offset(es.X.End()) == to {
+			found = true
+		}
+		return !found
+	})
+	return found
+}
+
 func errClass(e string) string {
 	e = strings.SplitN(e, "\n", 2)[0]
 	table := []struct{ sub, class string }{
@@ -480,6 +506,10 @@ func errClass(e string) string {
 		{"not enough arguments", "not-enough-arguments"},
 		{"cannot call pointer method", "pointer-method-on-value"},
 		{"multiple-value", "multi-value-in-single-value-context"},
+		{"cannot take address", "not-addressable"},
+		{"cannot assign to", "not-assignable"},
+		{"cannot convert", "cannot-convert"},
+		{"does not match inferred type", "type-inference"},
 		{"cannot use", "cannot-use-as"},
 		{"mismatched types", "mismatched-types"},
 		{"assignment mismatch", "assignment-mismatch"},
